@@ -26,6 +26,9 @@ import RigModel.Lemmas.C03NerValid
 import RigModel.Lemmas.C03AStarComplete
 import RigModel.Lemmas.C03AStarTotal
 import RigModel.Lemmas.C03Strong
+import RigModel.Lemmas.C03Surgery
+import RigModel.Lemmas.C03RepairInv
+import RigModel.Lemmas.C03RepairValid
 import RigModel.Props.Cross03_11
 set_option linter.unusedSimpArgs false
 set_option linter.unusedVariables false
@@ -368,5 +371,119 @@ theorem aStar_succeeds (m : Machine) (hs : stronglyConnected m = true) (sink hsr
 
 /-- non-vacuity: a 3 x 3 machine with a dead chip and dead links that is still strongly connected -/
 example : stronglyConnected ⟨3, 3, [(1, 1)], [((0, 0), 0), ((2, 2), 3)]⟩ = true := by decide +kernel
+
+/-! ## Round 3: the dead-link repair loop (`avoid_dead_links`, fixed code) yields a valid routing tree -/
+
+/-- **An A\* path is simple**: it visits no chip twice and does not pass through the sink (the orphan being
+reconnected) - for every machine. -/
+theorem aStar_path_simple (m : Machine) (sink hsrc : Chip) (sources : List Chip) (wrap : Bool)
+    (path : List (Nat × Chip)) (hsink : InRange m sink) (hns : sources.contains sink = false)
+    (h : aStar sink hsrc sources m wrap = .ok path) :
+    (path.map (·.2)).Nodup ∧ sink ∉ path.map (·.2) :=
+  L.aStar_path_nodup m sink hsrc sources wrap path hsink hns h
+
+/-- **The forest invariant of the repair loop** (`L.RInv f R`): `f` has one entry per chip, the children of a
+node are pairwise distinct, every node has at most one parent, a rank decreases along every edge (no cycle),
+every edge arrives at an entry; the chips of `R` are pairwise distinct parentless entries (component roots) and
+every entry is below one of them.  Spelled out: -/
+theorem RInv_iff (f : Forest) (R : List Chip) : L.RInv f R ↔
+    ((∃ rank : Chip → Nat, f.keys.Nodup ∧ (∀ n, n ∈ f → (n.2.map (·.2)).Nodup) ∧
+        (∀ n n' k k', n ∈ f → n' ∈ f → k ∈ n.2 → k' ∈ n'.2 → k.2 = k'.2 → n.1 = n'.1) ∧
+        (∀ n k, n ∈ f → k ∈ n.2 → rank k.2 < rank n.1)) ∧
+     (∀ n k, n ∈ f → k ∈ n.2 → k.2 ∈ f.keys) ∧ R.Nodup ∧
+     (∀ r, r ∈ R → r ∈ f.keys ∧ ∀ n k, n ∈ f → k ∈ n.2 → k.2 ≠ r) ∧
+     (∀ x, x ∈ f.keys → ∃ r, r ∈ R ∧ L.Below f r x)) := by
+  constructor
+  · rintro ⟨⟨rank, hw⟩, hc, hn, hr, hb⟩
+    exact ⟨⟨rank, hw.keys, hw.kidsNodup, hw.oneParent, hw.rank⟩, fun n k hn hk => hc n.1 k ⟨n, hn, rfl, hk⟩, hn,
+      fun r h => ⟨(hr r h).1, fun n k hn hk => (hr r h).2 n.1 k ⟨n, hn, rfl, hk⟩⟩, hb⟩
+  · rintro ⟨⟨rank, h1, h2, h3, h4⟩, hc, hn, hr, hb⟩
+    refine ⟨⟨rank, h1, h2, h3, h4⟩, ?_, hn, ?_, hb⟩
+    · rintro p k ⟨n, hn, rfl, hk⟩; exact hc n k hn hk
+    · intro r h
+      refine ⟨(hr r h).1, ?_⟩
+      rintro p k ⟨n, hn, rfl, hk⟩; exact (hr r h).2 n k hn hk
+
+/-- **The disconnecting copy establishes the invariant.**  Whenever `copy_and_disconnect_tree` returns (for ANY
+input forest): its root is the given root chip, and the lookup satisfies the forest invariant with component
+roots = the root and the (pairwise distinct) heads of the broken links. -/
+theorem copyAndDisconnect_forest (old : Forest) (root : Chip) (m : Machine) (cs : CopyState)
+    (h : copyAndDisconnect old root m = .ok cs) :
+    cs.root = some root ∧ L.RInv cs.lookup (root :: cs.broken.map (·.2)) :=
+  L.copyAndDisconnect_inv old root m cs h
+
+/-- **One broken link (the body of the repair loop) preserves the invariant** and removes the orphan from the
+component roots: A* from the rest of the forest to the orphan `pc.2`, then re-parenting along the detour - new
+chips get new nodes, chips of the orphaned subtree the detour runs through are cut from their parent (searched
+in the whole lookup: `legacy = false`) and re-hung on the detour.  For every forest satisfying the invariant,
+every orphan among its component roots, every A* outcome. -/
+theorem repairOne_preserves (m : Machine) (wrap : Bool) (f f' : Forest) (pc : Chip × Chip)
+    (path : List (Nat × Chip)) (R R' : List Chip) (hi : L.RInv f R) (hchild : pc.2 ∈ R)
+    (hlive : chipOk m pc.2 = true) (hR'n : R'.Nodup) (hR' : ∀ r, r ∈ R' ↔ r ∈ R ∧ r ≠ pc.2)
+    (h : repairOne m wrap false f pc = .ok (f', path)) : L.RInv f' R' :=
+  L.repairOne_inv hi hchild hlive hR'n hR' h
+
+/-- **`avoidDeadLinks_valid`.**  For every machine (any dead chips / links), net, radius, tape, every processing
+order of the broken links and every A* outcome: whenever the model of `route()` with the FIXED repair loop
+(`legacy = false`) returns after the dead-link repair ran, the final `{chip: node}` forest unfolds - with the
+fuel the driver and the oracle use - to a tree that satisfies ALL clauses of `ValidTree`: rooted at the source
+chip, chips pairwise distinct (no node with two parents, no cycle), every hop a working link of a working chip
+to the adjacent working chip, leaves exactly the sinks; and every entry of the forest is on the tree (nothing is
+left disconnected).  No hypothesis on the input is needed: a run on an ill-formed input ends in a model error. -/
+theorem avoidDeadLinks_valid (m : Machine) (src : Chip) (dests : List Chip) (radius : Nat) (t : Tape)
+    (order : List (Chip × Chip)) (sinks : List Sink) (r : Result)
+    (h : routeNet m src dests radius t order sinks false = .ok r) (hr : r.repaired = true) :
+    ∃ tr, toTree r.forest r.leaves (r.forest.length + 1) r.root = some tr ∧ ValidTree m src sinks tr ∧
+      ∀ c, c ∈ r.forest.keys → c ∈ tr.chips := by
+  obtain ⟨hroot, hinv, hsk⟩ := L.routeNet_repaired_inv m src dests radius t order sinks r h hr
+  rw [hroot]
+  obtain ⟨tr, htr, hu, hall⟩ := L.rinv_unfolds hinv r.leaves
+  have hpart := routeNet_tree_partial m src dests radius t order sinks false r h (r.forest.length + 1) tr
+    (by rw [hroot]; exact htr)
+  refine ⟨tr, htr, ⟨hu.chip, hu.nodup, ?_, hpart.2, ?_⟩, hall⟩
+  · intro c l c' he
+    obtain ⟨h1, h2, h3, h4⟩ := hpart.1 c l c' he
+    exact ⟨h1, h2, h4 hr, h3⟩
+  · intro lf hlf
+    have hl := L.routeNet_leaves m src dests radius t order sinks false r h
+    rw [← hl] at hlf
+    refine hu.leavesAll lf hlf (hall _ ?_)
+    rw [hl] at hlf
+    simp only [expectedLeaves, List.mem_flatMap, Sink.leaves, List.mem_map] at hlf
+    obtain ⟨s, hs, rt, _, rfl⟩ := hlf
+    exact hsk s hs
+
+/-- the machine of corpus/C03/f3-two-parents-2x4.json (defect F3) -/
+def f3Machine : Machine := ⟨2, 4, [(1, 1)],
+  [((0, 0), 1), ((0, 0), 2), ((0, 1), 1), ((0, 1), 2), ((0, 1), 5), ((0, 2), 1), ((0, 2), 3), ((0, 3), 0),
+   ((0, 3), 3), ((0, 3), 4), ((1, 0), 4), ((1, 0), 5), ((1, 1), 2), ((1, 1), 4), ((1, 2), 0), ((1, 2), 3),
+   ((1, 3), 0), ((1, 3), 3), ((1, 3), 4)]⟩
+def f3Sinks : List Sink := [⟨1, (0, 3), 1, 10, 12⟩, ⟨2, (1, 3), 0, 0, 0⟩]
+/-- the recorded run of that case: destination order, tape and broken-link order as observed on the real code -/
+def f3Run (legacy : Bool) : Except Err Result :=
+  routeNet f3Machine (0, 1) [(0, 3), (1, 3)] 0 [812573, 156207, 14521, 1, 283507, 474291]
+    [((0, 1), (0, 2)), ((0, 1), (1, 2))] f3Sinks legacy
+/-- number of parent links arriving at the node of chip `c` -/
+def inDegree (f : Forest) (c : Chip) : Nat := ((f.flatMap (·.2)).filter (fun e => e.2 == c)).length
+
+/-- **The unfixed code really breaks the invariant** (defect F3, why `avoidDeadLinks_valid` is about
+`legacy = false`).  On the 2x4 machine of corpus/C03/f3-two-parents-2x4.json, with the recorded tape and orders,
+the repair loop that searches the parent only inside `lookup[child]` leaves the node of chip (0, 2) with TWO
+parent links (the detour moved its parent (0, 3) out of the orphaned subtree, so the old link is not found and a
+second one is added): the unfolded tree contains a chip twice and is not a valid routing tree.  The fixed loop on
+the same input gives every node at most one parent link and a valid tree. -/
+theorem legacy_two_parents_witness :
+    (match f3Run true with
+     | .ok r => r.repaired && decide (inDegree r.forest (0, 2) = 2) &&
+        (match toTree r.forest r.leaves (r.forest.length + 1) r.root with
+         | some t => !validTree f3Machine (0, 1) f3Sinks t && !nodupB t.chips
+         | none => false)
+     | .error _ => false) = true ∧
+    (match f3Run false with
+     | .ok r => r.repaired && r.forest.keys.all (fun c => decide (inDegree r.forest c ≤ 1)) &&
+        (match toTree r.forest r.leaves (r.forest.length + 1) r.root with
+         | some t => validTree f3Machine (0, 1) f3Sinks t
+         | none => false)
+     | .error _ => false) = true := by decide +kernel
 
 end Rig.C03
